@@ -84,8 +84,10 @@ static std::string check_living(int mi, int ti, int hist) {
         auto merge_one = [&](bool highest) { std::optional<edge> pick; unsigned best = highest ? 0 : ~0u; for (const edge& e0 : c->get_edge_set()) { edge e = e0; bool can = false; try { can = lmr.can_be_merged(e, c); } catch (...) {} if (!can) continue; unsigned lo = std::min(e0.n1(), e0.n2()); if (highest ? lo >= best : lo <= best) { best = lo; pick = e0; } } if (!pick) return false; edge e = *pick; edge_set es = c->get_edge_set(); try { lmr.merge_edge(e, c, es); } catch (...) { return false; } return true; };
         auto split_one = [&]() { edge e = *c->get_edge_set().begin(); edge_set es = c->get_edge_set(); try { lmr.split_edge(e, c, es); } catch (...) {} };
         bool ok = true; switch (hist) { case 0: ok = merge_one(false); break; case 1: ok = merge_one(true) && merge_one(false); break; case 2: split_one(); ok = merge_one(true); break; case 3: ok = merge_one(false) && merge_one(false); split_one(); break;
-            default: { // collapse an edge of the triangle stored in face slot 0: the slot (and a node it names) is free afterwards
-                const face& f0 = c->face_lst_[0]; ok = false; for (auto pr : {std::make_pair(f0.n1_id_, f0.n2_id_), std::make_pair(f0.n2_id_, f0.n3_id_), std::make_pair(f0.n3_id_, f0.n1_id_)}) { auto eo = c->get_edge(pr.first, pr.second); if (!eo) continue; edge e = *eo; bool can = false; try { can = lmr.can_be_merged(e, c); } catch (...) {} if (!can) continue; edge_set es = c->get_edge_set(); try { lmr.merge_edge(e, c, es); ok = !c->face_lst_[0].is_used_; } catch (...) {} break; } } }
+            default: { // collapse one of the three edges of the triangle stored in face slot 0 (the slot, and nodes it still names, are free afterwards), optionally followed by another collapse elsewhere
+                const int which = (hist - 4) % 3, follow = (hist - 4) / 3; const face& f0 = c->face_lst_[0]; const unsigned pr[3][2] = {{f0.n1_id_, f0.n2_id_}, {f0.n2_id_, f0.n3_id_}, {f0.n3_id_, f0.n1_id_}}; ok = false;
+                auto eo = c->get_edge(pr[which][0], pr[which][1]); if (eo) { edge e = *eo; bool can = false; try { can = lmr.can_be_merged(e, c); } catch (...) {} if (can) { edge_set es = c->get_edge_set(); try { lmr.merge_edge(e, c, es); ok = !c->face_lst_[0].is_used_; } catch (...) {} } }
+                if (ok && follow == 1) ok = merge_one(false); if (ok && follow == 2) ok = merge_one(true); } }
         if (!ok || c->get_nb_of_nodes() == c->node_lst_.size() || !sc::oracle_mesh(*c, [] { sc::OracleOpts o; o.check_cached_geometry = false; o.flat_is_error = false; return o; }()).empty()) { c->clear_data(); return "skip"; }
         c->update_all_face_normals_and_areas(); c->area_ = c->compute_area(); c->volume_ = c->compute_volume(); sc::Geom g = sc::geom_of(*c); char buf[300]; std::string e;
         const double tmag = std::fabs(g_trans[ti][0]) * size, ctol = 1e-9 * size + 1e-13 * tmag; vec3 cen = c->compute_centroid(); auto bb = c->get_aabb();
@@ -137,7 +139,7 @@ static void explore(Result& R) {
         Variant v{mi, ri, ti, 0, 0, 0, 0, wk, ex}; std::string e = check(v, nullptr, &worst_vol); evals++; distinct++; tab["free_slot_from_the_start"]++;
         if (e.rfind("INTERNAL", 0) == 0) { R.internal_error = e; return; } if (!e.empty()) report(R, v, e); }
     // Block D: living cells: after real edge collapses / splits (free node and face slots anywhere in the lists, no rebase) the getters still describe the live surface
-    { long living = 0; for (int mi = 1; mi < (int)g_meshes.size() && !R.out_of_time(0.9); mi++) for (int ti = 0; ti < (int)g_trans.size(); ti++) for (int hist = 0; hist < 5; hist++) {
+    { long living = 0; for (int mi = 1; mi < (int)g_meshes.size() && !R.out_of_time(0.9); mi++) for (int ti = 0; ti < (int)g_trans.size(); ti++) for (int hist = 0; hist < 13; hist++) {
         std::string e = check_living(mi, ti, hist); if (e == "skip") continue; evals++; distinct++; living++; tab["living_cells_with_free_slots"]++;
         if (!e.empty()) R.violation(clause_of(e) + "|living-cell", e + " [mesh " + g_meshes[mi].name + ", translation index " + std::to_string(ti) + ", remeshing history " + std::to_string(hist) + "]", "mode=living\nmesh=" + std::to_string(mi) + "\ntrans=" + std::to_string(ti) + "\nhist=" + std::to_string(hist) + "\n"); }
       if (!living && R.violations.empty()) R.internal_error = "no living cell with free slots was produced (vacuous)"; }
